@@ -116,6 +116,47 @@ func (s *Snapshotter) LoadNewestAvailable(walSnaps []walpb.Snapshot) (*raftpb.Sn
 	})
 }
 
+// RemoveOrphans removes the snapshot files that are newer than the given snapshot (all of them if
+// it is nil) and are not recorded in walSnaps. Such a file was written by SaveSnap right before a
+// crash and its WAL record never followed, so it will never be loaded. It must not stay either:
+// snapshot files are purged by count, and a few of these would push out the snapshot the WAL
+// still refers to, after which the node cannot restart from its own data.
+func (s *Snapshotter) RemoveOrphans(walSnaps []walpb.Snapshot, newest *raftpb.Snapshot) error {
+	names, err := s.snapNames()
+	if err != nil {
+		if err == ErrNoSnapshot {
+			return nil
+		}
+		return err
+	}
+	// names are sorted from the newest to the oldest
+	for _, name := range names {
+		var term, index uint64
+		if _, err := fmt.Sscanf(name, "%016x-%016x"+snapSuffix, &term, &index); err != nil {
+			continue
+		}
+		if newest != nil && (term < newest.Metadata.Term ||
+			(term == newest.Metadata.Term && index <= newest.Metadata.Index)) {
+			break
+		}
+		recorded := false
+		for _, ws := range walSnaps {
+			if ws.Term == term && ws.Index == index {
+				recorded = true
+				break
+			}
+		}
+		if recorded {
+			continue
+		}
+		plog.Infof("removing orphaned snapshot file %s (no wal record)", name)
+		if err := os.Remove(filepath.Join(s.dir, name)); err != nil && !os.IsNotExist(err) {
+			return err
+		}
+	}
+	return nil
+}
+
 // loadMatching returns the newest snapshot where matchFn returns true.
 func (s *Snapshotter) loadMatching(matchFn func(*raftpb.Snapshot) bool) (*raftpb.Snapshot, error) {
 	names, err := s.snapNames()
